@@ -60,6 +60,9 @@ def has_symbol(e, memo):
             memo[k] = True
         elif e.kind == "constant":
             memo[k] = False
+        elif e.kind == "select" and e.operands[0].kind == "constant" and isinstance(e.operands[0].operands[0], (bool, np.bool_)):
+            # a select on a literal condition is the taken branch (the rewriter resolves it and then folds in the target type)
+            memo[k] = has_symbol(e.operands[1] if e.operands[0].operands[0] else e.operands[2], memo)
         else:
             memo[k] = any(has_symbol(o, memo) for o in e.operands)
     return memo[k]
